@@ -44,13 +44,33 @@ pub struct Statistics {
     pub disk_usage: AtomicU64,
 }
 
+// A cell of a record the scan still OWNS (`let mut record`): `store` through the owner is visible to the
+// proof; `load` through a shared Arc returns the stored value.
+#[verifier::external_body]
+pub struct OwnedCell { _p: () }
+impl OwnedCell {
+    pub uninterp spec fn val(&self) -> u64;
+    #[verifier::external_body]
+    pub fn store(&mut self, v: u64, o: Ordering)
+        ensures final(self).val() == v,
+    {
+        unimplemented!()
+    }
+    #[verifier::external_body]
+    pub fn load(&self, o: Ordering) -> (v: u64)
+        ensures v == self.val(),
+    {
+        unimplemented!()
+    }
+}
+
 // ---- records as the scan builds and reads them
 pub struct Record {
     pub key: Vec<u8>,
     pub value_len: usize,
     pub timestamp: u64,
-    pub sector: AtomicU64,
-    pub ttl_expiry: AtomicU64,
+    pub sector: OwnedCell,
+    pub ttl_expiry: OwnedCell,
 }
 
 impl Record {
@@ -67,6 +87,8 @@ impl Record {
             final(self).key == old(self).key,
             final(self).value_len == old(self).value_len,
             final(self).timestamp == old(self).timestamp,
+            final(self).sector == old(self).sector,
+            final(self).ttl_expiry == old(self).ttl_expiry,
     {
         unimplemented!()
     }
